@@ -419,26 +419,34 @@ func (ctx *Context) evaluate() {
 		}
 	}
 
-	var wodState struct {
+	type wodStateType struct {
 		pool      IntType
 		points    IntType
 		threshold IntType
 		isGE      bool
 	}
+	var wodState wodStateType
+	// 骰池表达式可以嵌套 ((1a0m100)a0k1、3a8m(2a9))，内层会重新初始化并改写这些参数，
+	// 所以进入一个骰池表达式时把外层的参数存起来，内层骰完再恢复
+	var wodSaved []wodStateType
 
 	wodInit := func() {
+		wodSaved = append(wodSaved, wodState)
 		wodState.pool = 1
 		wodState.points = 10   // 面数，默认d10
 		wodState.threshold = 8 // 成功线，默认9
 		wodState.isGE = true
 	}
 
-	var dcState struct {
+	type dcStateType struct {
 		pool   IntType
 		points IntType
 	}
+	var dcState dcStateType
+	var dcSaved []dcStateType // 同 wodSaved
 
 	dcInit := func() {
+		dcSaved = append(dcSaved, dcState)
 		dcState.pool = 1    // 骰数，默认1
 		dcState.points = 10 // 面数，默认d10
 	}
@@ -1066,6 +1074,9 @@ func (ctx *Context) evaluate() {
 			}
 
 			num, _, _, detailText := RollWoD(ctx.RandSrc, addLine, wodState.pool, wodState.points, wodState.threshold, wodState.isGE, getRollMode())
+			if n := len(wodSaved); n > 0 {
+				wodState, wodSaved = wodSaved[n-1], wodSaved[:n-1]
+			}
 			ret := NewIntVal(num)
 			details[len(details)-1].Ret = ret
 			details[len(details)-1].Text = detailText
@@ -1099,6 +1110,9 @@ func (ctx *Context) evaluate() {
 				return
 			}
 			success, _, _, detailText := RollDoubleCross(ctx.RandSrc, addLine, dcState.pool, dcState.points, getRollMode())
+			if n := len(dcSaved); n > 0 {
+				dcState, dcSaved = dcSaved[n-1], dcSaved[:n-1]
+			}
 			ret := NewIntVal(success)
 			details[len(details)-1].Ret = ret
 			details[len(details)-1].Text = detailText
